@@ -2,6 +2,8 @@
 peer sends; permanence itself is C07: empty ISOLATED row of the transition table, single writer)."""
 from pyvc.spec import *
 
+GROUP = 'members'   # contracts of one group use each other's contracts at call sites (pyvc/hooks.py contract_for_call)
+
 from contracts.c07 import valid_structure, distinct_entries, status_pre, setter_frame
 
 ISOLATED = SupvisorsInstanceStates.ISOLATED
